@@ -480,6 +480,29 @@ def loop_carried_mutables(body, header, entry):
     return out
 
 
+def unexpected_carried_state(body, header, entry, extra_allowed=()):
+    """loop-carried mutable locals other than, by role (not by name): the local the function returns (the accumulator), iterators,
+    and the locals given in extra_allowed (local indices, e.g. scratch buffers identified by their argument slot)"""
+    inside = {b for b in body.fwd(entry) if header in body.fwd(b)} | {entry}
+    ret_ls = set()
+    for bi, si, s in body.assigns():
+        if s["place"]["l"] == 0 and not s["place"]["p"] and s["rv"]["k"] == "use" and s["rv"]["op"]["k"] in ("move", "copy") and not s["rv"]["op"]["place"]["p"]:
+            ret_ls.add(s["rv"]["op"]["place"]["l"])
+    out = []
+    for l in range(body.argc + 1, len(body.f["locals"])):
+        if not body.debug.get(l) or l in ret_ls or l in extra_allowed:
+            continue
+        ty = body.local_ty(l)
+        if any(x in ty for x in ("Iter<", "IntoIter", "ops::Range", "RangeInclusive", "iter::")):
+            continue
+        defs = body.defs.get(l, [])
+        if not defs or all(d[0] in inside for d in defs):
+            continue
+        if any(d[0] not in inside for d in defs) and body.mutations_in(inside, l):
+            out.append(body.debug[l])
+    return sorted(set(out))
+
+
 def _container_root(t):
     t = strip(t)
     while t[0] == "call" and t[2] and any(t[1].endswith(s) for s in ("ops::Index::index", "ops::IndexMut::index_mut", "Deref::deref", "DerefMut::deref_mut")):
